@@ -297,7 +297,6 @@ func (p *Proxy) Serve(l net.Listener) error {
 			return err
 		}
 		delay = 0
-		log.Debug(context.TODO(), "accepted connection", "address", conn.RemoteAddr().String())
 
 		go p.handleLoop(conn)
 	}
@@ -321,6 +320,9 @@ func (p *Proxy) handleLoop(conn net.Conn) {
 	if p.closing() {
 		return
 	}
+
+	// RemoteAddr may block, e.g. waiting for the PROXY protocol header, it must not be called in the accept loop.
+	log.Debug(context.TODO(), "accepted connection", "address", conn.RemoteAddr().String())
 
 	pc := newProxyConn(p, conn)
 
